@@ -153,6 +153,11 @@ func envType(e *v2.Envelope) string {
 
 // ---- simulator ---------------------------------------------------------------------------------------------------------
 
+type announce struct {
+	from, to int
+	ref      hash.SHA256Hash
+}
+
 type sim struct {
 	r     *ev.Run
 	sc    *scenario
@@ -161,19 +166,22 @@ type sim struct {
 	ornd  *rand.Rand // oracle sampling (separate stream: observing never changes the schedule)
 	nodes []*simNode
 
-	inflight []*wmsg
-	held     []*wmsg
-	history  []*wmsg
-	seq      int
-	step     int
-	phase    string
-	trace    []string
-	stats    map[string]int
-	newTxs   int
-	offered  map[hash.SHA256Hash]bool // tampered transactions that were delivered to a node inside a TransactionList
-	violated bool
-	traceCut int
-	maxRound int // most steps any fair round needed
+	inflight  []*wmsg
+	held      []*wmsg
+	history   []*wmsg
+	seq       int
+	step      int
+	phase     string
+	trace     []string
+	stats     map[string]int
+	newTxs    int
+	offered   map[hash.SHA256Hash]bool // tampered transactions that were delivered to a node inside a TransactionList
+	violated  bool
+	traceCut  int
+	announced map[announce]bool
+	created   []hash.SHA256Hash
+	createdAt map[hash.SHA256Hash]int
+	maxRound  int // most steps any fair round needed
 }
 
 func (s *sim) stat(k string, d int) { s.stats[k] += d }
@@ -226,6 +234,18 @@ func (s *sim) onSend(from, to int, envelope interface{}) error {
 	m := &wmsg{seq: s.seq, from: from, to: to, typ: envType(env), wire: wire, origin: "node"}
 	s.inflight = append(s.inflight, m)
 	s.stat("sent/"+m.typ, 1)
+	if g := env.GetGossip(); g != nil {
+		// observation only (the property does not speak about the gossip queue): which refs are announced to whom, and how often
+		for _, rb := range g.Transactions {
+			k := announce{from, to, hash.FromSlice(rb)}
+			if s.announced[k] {
+				s.stat("gossip_refs_reannounced_to_same_peer", 1)
+			} else {
+				s.announced[k] = true
+				s.stat("gossip_refs_announced", 1)
+			}
+		}
+	}
 	s.stat("bytes_on_wire", len(wire))
 	return nil
 }
@@ -640,6 +660,8 @@ func (s *sim) createTx(n *simNode) {
 	s.newTxs++
 	s.stat("transactions_created_midrun", 1)
 	s.tracef("create at %d lc=%d", n.idx, g.tx.Clock())
+	s.created = append(s.created, g.tx.Ref())
+	s.createdAt[g.tx.Ref()] = n.idx
 	if err := n.st.Add(context.Background(), g.tx, g.payload); err != nil {
 		s.r.Fatalf("mid-run Add at %s: %v", n.name, err)
 	}
